@@ -5057,7 +5057,7 @@ class NetCDFWrite(IOWrite):
         if fmt not in netcdf3_fmts + netcdf4_fmts:
             raise ValueError(f"Unknown output file format: {fmt}")
         elif fmt in netcdf3_fmts:
-            if compress in netcdf3_fmts:
+            if compress:
                 raise ValueError(f"Can't compress {fmt} format file")
             if group in netcdf3_fmts:
                 # Can't write groups to a netCDF3 file
